@@ -1,4 +1,5 @@
 import DoraModel.Trace.Lemmas
+import DoraModel.Trace.BytecodeLemmas
 /-!
 # C14 — A trap report names what failed and where
 
@@ -158,5 +159,70 @@ example :
                     calls := [], bad := false }
     wfTrace ⟨[f, m, e], false⟩ = true ∧
     walk ⟨[f, m, e], false⟩ 4 [(0, 12), (1, 22), (2, 5)] = .ok [⟨7, 4, 9⟩, ⟨3, 8, 5⟩, ⟨0, 21, 3⟩] := by decide +kernel
+
+/-! ### the bytecode-level lookup the baseline code generator uses (`BytecodeBody::offset_location`)
+
+The position a trap report names is recorded in two steps: the bytecode generator gives location-carrying instructions
+an entry in the function's bytecode position table (`BytecodeWriter::emit_location`; an instruction that has the
+location of the LAST ENTRY gets none), and the baseline code generator asks `offset_location(bytecode offset)` when it
+translates a trapping / calling instruction and stores the answer in the machine-code position table the theorems above
+are about. The next theorems say what that lookup answers. -/
+open Dora.Trace.Bc in
+/-- "names the source line of the operation that failed", bytecode level: on a table with strictly increasing
+offsets, `offset_location q` is the location of the entry with the GREATEST offset ≤ q (the instruction's own entry, or
+the entry of the nearest preceding location-carrying instruction — never a later one), whenever such an entry exists. -/
+theorem offset_location_floor (l : List Bc.BEntry) (h : Bc.sortedB l = true) (q : Nat) (e : Bc.BEntry) (he : e ∈ l)
+    (hle : e.off ≤ q) (hmax : ∀ e' ∈ l, e'.off ≤ q → e'.off ≤ e.off) :
+    Bc.offsetLocation l q = some e.loc :=
+  Bc.offsetLocation_of_isFloor l (Bc.sortedB_sorted l h) q e.loc ⟨e, he, rfl, hle, hmax⟩
+
+/-- an instruction without an entry of its own (offset 12) between the entries at 7 and 20 gets the one at 7 -/
+example : Bc.sortedB [⟨0, ⟨9, 5⟩⟩, ⟨7, ⟨10, 5⟩⟩, ⟨20, ⟨11, 5⟩⟩] = true ∧
+    Bc.offsetLocation [⟨0, ⟨9, 5⟩⟩, ⟨7, ⟨10, 5⟩⟩, ⟨20, ⟨11, 5⟩⟩] 12 = some ⟨10, 5⟩ ∧
+    Bc.offsetLocation [⟨0, ⟨9, 5⟩⟩, ⟨7, ⟨10, 5⟩⟩, ⟨20, ⟨11, 5⟩⟩] 20 = some ⟨11, 5⟩ ∧
+    Bc.offsetLocation [⟨0, ⟨9, 5⟩⟩, ⟨7, ⟨10, 5⟩⟩, ⟨20, ⟨11, 5⟩⟩] 99 = some ⟨11, 5⟩ := by
+  refine ⟨by decide, ?_, ?_, ?_⟩ <;> simp [Bc.offsetLocation, Bc.bsearch, Bc.pickIndex]
+
+/-- the two remaining cases, exactly as the code has them: a query below every entry answers the FIRST entry
+(`Err(0) => 0`), an empty table answers `Location::new(1, 1)`; together with `offset_location_floor` this covers every
+query, so the lookup never panics and never reads outside the table. -/
+theorem offset_location_no_floor (l : List Bc.BEntry) (h : Bc.sortedB l = true) (q : Nat)
+    (hno : ∀ e ∈ l, q < e.off) :
+    Bc.offsetLocation l q = some (match l with | [] => ⟨1, 1⟩ | e :: _ => e.loc) := by
+  cases l with
+  | nil => simp [Bc.offsetLocation, Bc.bsearch, Bc.pickIndex]
+  | cons e r => exact Bc.offsetLocation_before_first e r (Bc.sortedB_sorted _ h) q (hno e (List.mem_cons_self))
+
+example : Bc.offsetLocation [⟨3, ⟨9, 5⟩⟩, ⟨7, ⟨10, 5⟩⟩] 2 = some ⟨9, 5⟩ ∧ Bc.offsetLocation [] 2 = some ⟨1, 1⟩ := by
+  constructor <;> simp [Bc.offsetLocation, Bc.bsearch, Bc.pickIndex]
+
+/-- producer and lookup fit together: whatever sequence of instructions the bytecode generator emits through
+`BytecodeWriter` (each optionally preceded by `set_location`, each at least one byte long), if the writer's assertion
+holds then the table it builds has strictly increasing offsets and EVERY location-needing instruction — also one that
+got no entry of its own because it has the location of the last entry — is answered by `offset_location(its offset)`
+with exactly the location that was set for it. -/
+theorem recorded_location_found (is : List Bc.Instr) (hsz : ∀ i ∈ is, 0 < i.size) (s : Bc.WState)
+    (h : Bc.emitAll Bc.WState.init is = some s) :
+    Bc.sortedB s.table = true ∧
+    ∀ (k : Nat) (hk : k < is.length), is[k].needs = true →
+      ∃ loc, is[k].loc = some loc ∧ Bc.offsetLocation s.table (Bc.offsetOf is k) = some loc := by
+  obtain ⟨done, hinv, _, hall⟩ := Bc.emitAll_found is hsz _ s [] Bc.inv_init h
+  refine ⟨Bc.sorted_sortedB _ hinv.sorted, ?_⟩
+  intro k hk hn
+  obtain ⟨loc, hl, hm⟩ := hall k hk hn
+  refine ⟨loc, hl, ?_⟩
+  have := (hinv.found _ hm).2
+  simp only [Bc.WState.init, Nat.zero_add] at this
+  exact Bc.offsetLocation_of_isFloor _ hinv.sorted _ _ this
+
+/-- `a(i) += x; println(..)`: LoadArray (3 bytes, location 10:5, gets the entry), CheckedAdd (4 bytes, same location:
+no entry), StoreArray (same), a Mov without location, InvokeStatic at 11:5. The CheckedAdd at offset 3 is answered 10:5. -/
+example :
+    let is : List Bc.Instr := [⟨some ⟨10, 5⟩, true, 3⟩, ⟨some ⟨10, 5⟩, true, 4⟩, ⟨some ⟨10, 5⟩, true, 4⟩, ⟨none, false, 3⟩,
+                               ⟨some ⟨11, 5⟩, true, 3⟩]
+    Bc.emitAll Bc.WState.init is = some ⟨17, [⟨0, ⟨10, 5⟩⟩, ⟨14, ⟨11, 5⟩⟩], none⟩ ∧ Bc.offsetOf is 1 = 3 ∧
+    Bc.offsetLocation [⟨0, ⟨10, 5⟩⟩, ⟨14, ⟨11, 5⟩⟩] 3 = some ⟨10, 5⟩ := by
+  refine ⟨by decide, by decide, ?_⟩
+  simp [Bc.offsetLocation, Bc.bsearch, Bc.pickIndex]
 
 end Dora.Trace.C14
